@@ -142,7 +142,7 @@ def quantizer_phase0(cls):
     ip.assume(z3.And(bits >= 2, integer >= 0))
     x = Q.tensor("x")
     s.vars["x"] = x.e
-    C = Q.qcls(ip, cls)
+    C = Q.qcls(ip, cls.replace("_leaky", ""))
     b, i = SNum(bits), SNum(integer)
     mk = {
         "quantized_bits": lambda st: ip.call(C, [b, i, 0, True, None, st], {}),
@@ -152,6 +152,8 @@ def quantizer_phase0(cls):
         "quantized_sigmoid": lambda st: ip.call(C, [b, False, False, st], {}),
         "quantized_po2": lambda st: ip.call(C, [b, None, st], {}),
         "quantized_relu_po2": lambda st: ip.call(C, [b, None, 0, st], {}),
+        # leaky variant: the negative side is a second _clip_power_of_two call with its own flags (seed c08-7)
+        "quantized_relu_po2_leaky": lambda st: ip.call(C, [b, None, 0.25, st], {}),
         "binary": lambda st: ip.call(C, [False, 2.0, st], {}),
     }[cls]
     r1, r2 = Q.call(ip, mk(True), x), Q.call(ip, mk(False), x)
@@ -161,7 +163,8 @@ def quantizer_phase0(cls):
       s.info["raised"] = "%s / %s" % (r1[1], r2[1])
       return s
     s.claim("phase0", Q.value(r1) == Q.value(r2))
-    s.replay = {"class": cls, "bits": bits, "integer": integer, "phase": 0}
+    s.replay = {"class": cls.replace("_leaky", ""), "bits": bits, "integer": integer, "phase": 0,
+                "negative_slope": 0.25 if cls.endswith("_leaky") else 0}
     return s
   return scenario
 
@@ -303,8 +306,9 @@ def cases(tier):
     out.append(Case(PROP, Q.QF + cls + ".__call__", "phase1", quantizer_phase1(cls), bounds=bounds,
                     replay_kind="c08", assumptions=ASSUME, setup=phase(1), lo=-12, hi=12))
   for cls in ("quantized_bits", "quantized_linear", "quantized_relu", "quantized_tanh", "quantized_sigmoid",
-              "quantized_po2", "quantized_relu_po2", "binary"):
-    out.append(Case(PROP, Q.QF + cls + ".__call__", "phase0", quantizer_phase0(cls), bounds=bounds,
+              "quantized_po2", "quantized_relu_po2", "quantized_relu_po2_leaky", "binary"):
+    out.append(Case(PROP, Q.QF + cls.replace("_leaky", "") + ".__call__", "phase0" + ("_leaky" if cls.endswith("_leaky") else ""),
+                    quantizer_phase0(cls), bounds=bounds,
                     replay_kind="c08", assumptions=ASSUME + ["tf.round rounds ties to even (modelled exactly here)"],
                     setup=phase(0), lo=-130 if "po2" in cls else -12, hi=130 if "po2" in cls else 12, precise_ties=True))
   for cls in ("quantized_po2", "quantized_relu_po2"):
